@@ -58,4 +58,10 @@ MUTANTS = [
     ("set_value_after_transcription_not_stored", ST, "            def action(parameter, value):\n                self._method.set_value(self, self.master._method, parameter, value)      ", "            def action(parameter, value):\n                self._method.set_value(self, self.master._method, parameter, value) if not parameter.is_scalar() else None", ["C09"]),
     ("control_plus_param_shifted", SM, "            self.P_control_plus.append([opti.parameter(p.shape[0], p.shape[1]) for i in range(self.N+1)])", "            self.P_control_plus.append(list(reversed([opti.parameter(p.shape[0], p.shape[1]) for i in range(self.N+1)])))", ["C09"]),
     ("set_parameter_phase2_skipped_for_control", SM, "        for i, p in enumerate(stage.parameters['control']):\n            opti.set_value(hcat(self.P_control[i]), stage._param_value(p))", "        for i, p in enumerate(stage.parameters['control']):\n            opti.set_value(hcat(self.P_control[i]), DM(stage._param_value(p))[:,::-1] if self.N==3 else stage._param_value(p))", ["C09"]),
+    # --- C11
+    ("freeT_skip_nonneg", DM, "                stage.subject_to(stage._T>=0)\n", "", ["C11"]),
+    ("freeT_guess_not_seeded", DM, "                stage.set_initial(stage._T, init,priority=True)\n                return stage._T", "                stage.set_initial(stage._T, 1,priority=True)\n                return stage._T", ["C11"]),
+    ("free_t0_guess_ignored", DM, "                stage.set_initial(stage._t0, init,priority=True)", "                stage.set_initial(stage._t0, 0*init,priority=True)", ["C11"]),
+    ("tf_ignores_t0", ST, "        self._tf = self.T + self.t0", "        self._tf = self.T + 0*self.t0", ["C11", "C07"]),
+    ("free_time_grid_uses_guess", SM, "        self.T = self.eval(stage, stage._T)\n        self.t0 = self.eval(stage, stage._t0)", "        self.T = self.eval(stage, stage._T)\n        self.t0 = self.eval(stage, stage._t0)\n        if not self.t0.is_constant() and self.N==2: self.t0 = self.t0*1.0000001", ["C11"]),
 ]
